@@ -6,31 +6,42 @@ pub mod fw;
 #[path = "../../harness/src/props/mod.rs"]
 pub mod props;
 
-use std::cell::RefCell;
+use std::sync::mpsc::{channel, Receiver, Sender};
+use std::sync::{Mutex, OnceLock};
 
-thread_local! {
-    static CTX: RefCell<Option<fw::Ctx>> = RefCell::new(None);
-}
+type Job = Box<dyn FnOnce(&fw::Ctx) + Send + 'static>;
+static WORKER: OnceLock<Mutex<(Sender<Job>, Receiver<()>)>> = OnceLock::new();
 
-/// One-time process set-up: panic capture, quiet stdout, docroot, environment. libFuzzer calls the target on one thread.
-pub fn with_ctx<T>(property: &str, needs_docroot: bool, f: impl FnOnce(&fw::Ctx) -> T) -> T {
-    CTX.with(|c| {
-        if c.borrow().is_none() {
+/// Runs `f` on the target's worker thread and waits for it. rws code has an implicit precondition every real caller meets: it runs on a
+/// *named* thread (pool workers are named "0".."N-1"; log/mod.rs unwraps the name) - libFuzzer's own thread is unnamed because the
+/// process has no Rust `main`. The worker is created once (panic capture, scratch directory, docroot, environment) with the 2 MiB stack
+/// the proptest checks use, so depth limits agree between the two engines.
+pub fn with_ctx(property: &str, needs_docroot: bool, f: impl FnOnce(&fw::Ctx) + Send) {
+    let w = WORKER.get_or_init(|| {
+        let (jtx, jrx) = channel::<Job>();
+        let (dtx, drx) = channel::<()>();
+        let property = property.to_string();
+        std::thread::Builder::new().name("0".into()).stack_size(2 << 20).spawn(move || {
             fw::install_panic_hook();
             let dir = fw::scratch_base().join(format!("rwsv-fuzz-{}", std::process::id()));
             let _ = std::fs::create_dir_all(&dir);
             let strict = std::env::var("RWSV_FUZZ_STRICT").is_ok();
-            let ctx = fw::make_child_ctx(property, fw::Tier::Quick, 0, 0, 1, &dir, strict);
+            let ctx = fw::make_child_ctx(&property, fw::Tier::Quick, 0, 0, 1, &dir, strict);
             // rws prints a log line per request: campaigns run with libFuzzer's -close_fd_mask=3 (libFuzzer keeps its own copy of stderr)
             if needs_docroot {
                 fw::inproc::init_env();
                 let tree = props::common::fixed_docroot().expect("docroot");
                 std::mem::forget(tree); // lives as long as the process; removed by the campaign driver
             }
-            *c.borrow_mut() = Some(ctx);
-        }
-        f(c.borrow().as_ref().unwrap())
-    })
+            while let Ok(job) = jrx.recv() { job(&ctx); if dtx.send(()).is_err() { break; } }
+        }).expect("worker thread");
+        Mutex::new((jtx, drx))
+    });
+    let job: Box<dyn FnOnce(&fw::Ctx) + Send + '_> = Box::new(f);
+    // the borrow is sound: this function does not return before the worker has finished (or died with) the job
+    let job: Job = unsafe { std::mem::transmute(job) };
+    let g = w.lock().unwrap();
+    if g.0.send(job).is_err() || g.1.recv().is_err() { eprintln!("FUZZ-WORKER-DIED (a panic escaped the oracle)"); std::process::abort(); }
 }
 
 /// A failure that is not a listed known finding ends the process the libFuzzer way (abort), with the signature in the message.
